@@ -14,7 +14,7 @@ use crate::rec::*;
 use crate::sim::*;
 use bitcoin::hashes::{sha256, Hash};
 use bitcoin::{OutPoint, Transaction, Txid};
-use lightning::chain::channelmonitor::{Balance, ANTI_REORG_DELAY};
+use lightning::chain::channelmonitor::Balance;
 use lightning::events::Event;
 use lightning::ln::channelmanager::PaymentId;
 use lightning::ln::functional_test_utils::*;
@@ -33,6 +33,10 @@ pub const B: usize = 1;
 /// `chain::channelmonitor::LATENCY_GRACE_PERIOD_BLOCKS` (crate-private there): an HTLC is not forwarded
 /// when its outgoing expiry is within this many blocks of the next block height.
 pub const LATENCY_GRACE_PERIOD_BLOCKS: u32 = 3;
+/// Documented value of `chain::channelmonitor::ANTI_REORG_DELAY` (kept as the oracle's own constant so that
+/// a change of the library's value is noticed instead of followed): an on-chain resolution counts as final
+/// once it has this many confirmations.
+pub const ANTI_REORG_DELAY: u32 = 6;
 
 // -------------------------------------------------------------------------------------------------
 // sends around B's policy
@@ -876,6 +880,13 @@ pub struct FwdOracle {
 	b_height: u32,
 	/// B's in-flight monitor updates: (chan id, update id)
 	b_inflight: BTreeSet<(ChannelId, u64)>,
+	/// B's monitor updates per channel index, in hand-out order: (update id, step kinds, debug rendering, durable)
+	b_updates: BTreeMap<usize, Vec<(u64, Vec<String>, String, bool)>>,
+	/// channels of B for which update counting is no longer reliable (closed, or B was restarted)
+	b_updates_unreliable: BTreeSet<usize>,
+	/// distinct revocation secrets delivered to B per channel, in arrival order
+	revoke_order_at_b: BTreeMap<usize, Vec<[u8; 32]>>,
+	pub durability_checks: u64,
 	fulfil_marker: Option<bool>,
 	/// the pair whose preimage B is learning in the delivery being processed right now
 	learning_now: Option<[u8; 32]>,
@@ -993,6 +1004,10 @@ impl FwdOracle {
 			height: h,
 			b_height: sim.w.nodes[B].best_block_info().1,
 			b_inflight: BTreeSet::new(),
+			b_updates: BTreeMap::new(),
+			b_updates_unreliable: BTreeSet::new(),
+			revoke_order_at_b: BTreeMap::new(),
+			durability_checks: 0,
 			fulfil_marker: None,
 			learning_now: None,
 			policy,
@@ -1020,6 +1035,57 @@ impl FwdOracle {
 
 	fn pair_by_down(&mut self, chan: usize, id: u64) -> Option<&mut Pair> {
 		self.pairs.values_mut().find(|p| p.down.as_ref().map(|d| d.chan == chan && d.id == id).unwrap_or(false))
+	}
+
+	/// (d) durability order, observed directly (while B was never restarted and the channel is open): when
+	/// the monitor update of the downstream channel that makes the *fulfilled* HTLC's removal irrevocable --
+	/// the one carrying the commitment secret of the next hop's revoke_and_ack for B's first commitment_signed
+	/// without the HTLC -- becomes durable, a monitor update storing the preimage in the upstream channel's
+	/// monitor must already be durable. The n-th distinct revoke_and_ack delivered to B on a channel
+	/// corresponds to B's n-th monitor update of that channel carrying a CommitmentSecret step.
+	fn check_durability_order(&mut self, sim: &Sim, chan: usize) -> CaseResult {
+		if self.b_updates_unreliable.contains(&chan) {
+			return Ok(());
+		}
+		let sb = side_of(sim, chan, B);
+		let sc = 1 - sb;
+		let mut evaluated = 0;
+		for p in self.pairs.values() {
+			let Some(d) = &p.down else { continue };
+			if d.chan != chan || p.learned.map(|(_, how)| how != "message").unwrap_or(true) {
+				continue;
+			}
+			let m = &self.models[chan];
+			let Some(k) = m.sides[sc].updates.iter().position(|u| *u == Upd::Fulfill { id: d.id }) else { continue };
+			let Some(acked) = self.acked_at_cs.get(&(chan, sb)) else { continue };
+			let Some(i) = acked.iter().position(|a| *a > k) else { continue };
+			// the next hop's (i+1)-th revoke_and_ack revokes its last commitment containing the HTLC
+			let Some(secret) = m.sides[sc].raa_secrets.get(i) else { continue };
+			let Some(n) = self.revoke_order_at_b.get(&chan).and_then(|v| v.iter().position(|s| s == secret)) else { continue };
+			let Some(upd) = self.b_updates.get(&chan).and_then(|v| v.iter().filter(|u| u.1.iter().any(|s| s == "CommitmentSecret")).nth(n)) else { continue };
+			if !upd.3 {
+				continue;
+			}
+			if self.b_updates_unreliable.contains(&p.up_chan) {
+				continue;
+			}
+			let preimage = sim.pays.iter().find(|x| x.hash.0 == p.hash).map(|x| format!("{:?}", x.preimage));
+			let Some(needle) = preimage else { continue };
+			evaluated += 1;
+			let up_durable = self.b_updates.get(&p.up_chan).map(|v| v.iter().any(|u| u.3 && u.1.iter().any(|s| s == "PaymentPreimage") && u.2.contains(&needle))).unwrap_or(false);
+			if !up_durable {
+				return Err(fail(
+					"durability-order",
+					format!(
+						"B's monitor update {} of the downstream chan {} (steps {:?}), which makes the removal of the fulfilled HTLC id {} irrevocable, is durable while no durable update of the upstream chan {} stores the preimage (upstream HTLC id {})",
+						upd.0, chan, upd.1, d.id, p.up_chan, p.up_id
+					),
+				)
+				.with_key("durability-order"));
+			}
+		}
+		self.durability_checks += evaluated;
+		Ok(())
 	}
 
 	/// (c), off-chain branch: the downstream HTLC was removed by the next hop's *failure* and no unrevoked
@@ -1075,12 +1141,23 @@ impl FwdOracle {
 					let nd: Vec<([u8; 32], u64, bool, u32)> = tx.nondust_htlcs().iter().map(|h| (h.payment_hash.0, h.amount_msat, h.offered, h.transaction_output_index.unwrap_or(u32::MAX))).collect();
 					self.pending_number.insert((chan, side), (tx.commitment_number(), tx.trust().txid(), nd, tx.to_broadcaster_value_sat(), tx.to_countersignatory_value_sat()));
 				},
-				M::H(HEvent::PersistUpdate { node, chan, update_id: Some(id), in_progress: true, .. }) if node == B => {
-					self.b_inflight.insert((chan, id));
-					// an update B creates while handling the fulfil (the upstream preimage update, the downstream
-					// commitment update) stays in flight
-					if let Some(p) = self.learning_now.and_then(|h| self.pairs.get_mut(&h)) {
-						p.async_pending_at_learn = true;
+				M::H(HEvent::PersistUpdate { node, chan, update_id: Some(id), in_progress, steps, debug, .. }) if node == B => {
+					if let Some(ci) = chan_of(sim, &chan) {
+						if steps.iter().any(|s| s == "ChannelForceClosed" || s.starts_with('?')) {
+							self.b_updates_unreliable.insert(ci);
+						}
+						self.b_updates.entry(ci).or_default().push((id, steps, debug, !in_progress));
+						if !in_progress {
+							self.check_durability_order(sim, ci)?;
+						}
+					}
+					if in_progress {
+						self.b_inflight.insert((chan, id));
+						// an update B creates while handling the fulfil (the upstream preimage update, the downstream
+						// commitment update) stays in flight
+						if let Some(p) = self.learning_now.and_then(|h| self.pairs.get_mut(&h)) {
+							p.async_pending_at_learn = true;
+						}
 					}
 				},
 				M::H(HEvent::PersistNew { node, chan, update_id, in_progress: true }) if node == B => {
@@ -1088,6 +1165,12 @@ impl FwdOracle {
 				},
 				M::H(HEvent::PersistCompleted { node, chan, update_id }) if node == B => {
 					self.b_inflight.remove(&(chan, update_id));
+					if let Some(ci) = chan_of(sim, &chan) {
+						if let Some(u) = self.b_updates.get_mut(&ci).and_then(|v| v.iter_mut().find(|u| u.0 == update_id)) {
+							u.3 = true;
+						}
+						self.check_durability_order(sim, ci)?;
+					}
 				},
 				M::S(SEvent::Api { node, what, ok, .. }) => {
 					self.learning_now = None;
@@ -1113,6 +1196,9 @@ impl FwdOracle {
 					if node == B && ok {
 						self.stats.restarts_b += 1;
 						self.b_inflight.clear();
+						for ci in 0..sim.chans.len() {
+							self.b_updates_unreliable.insert(ci);
+						}
 						for p in self.pairs.values_mut() {
 							p.restarts_after_in += 1;
 							if p.down.as_ref().map(|d| snapshot_step < d.t_emit).unwrap_or(false) {
@@ -1459,7 +1545,9 @@ impl FwdOracle {
 				}
 			},
 			Wire::Revoke(m) => {
-				self.revokes_at_b.entry(chan).or_default().insert(m.per_commitment_secret);
+				if self.revokes_at_b.entry(chan).or_default().insert(m.per_commitment_secret) {
+					self.revoke_order_at_b.entry(chan).or_default().push(m.per_commitment_secret);
+				}
 				let bh = self.b_height;
 				for p in self.pairs.values_mut() {
 					if p.up_chan == chan && p.h_commit.is_none() && p.down.is_none() {
@@ -1596,11 +1684,18 @@ impl FwdOracle {
 								Some((stx, h_s)) => {
 									let with_preimage = sim.chain.seen.get(stx).map(|tx| input_has_preimage(tx, &op, &p.hash)).unwrap_or(false);
 									if !with_preimage {
+										// discriminating fact: B did try, but only in transactions that also spend an output
+										// which was already spent on chain (so they could never confirm)
+										let bundled = sim.log.iter().any(|(_, e)| match e {
+											SEvent::Broadcast { node, tx, verdict: Err(crate::chain::Reject::AlreadySpent(..)), .. } => *node == B && tx.input.iter().any(|i| i.previous_output == op),
+											_ => false,
+										});
+										let key = if bundled { "claim-follows-knowledge/onchain-timeout/claim-bundled-with-spent-input" } else { "claim-follows-knowledge/onchain-timeout" };
 										return Err(fail(
 											"claim-follows-knowledge",
-											format!("the upstream HTLC output {}:{} (commitment confirmed at height {}) was taken back by the previous hop through {} at height {} although B knew the preimage: {}", t, idx, h_t, stx, h_s, ctx),
+											format!("the upstream HTLC output {}:{} (commitment confirmed at height {}) was taken back by the previous hop through {} at height {} although B knew the preimage (B's only claim attempts also spent an already spent output: {}): {}", t, idx, h_t, stx, h_s, bundled, ctx),
 										)
-										.with_key("claim-follows-knowledge/onchain-timeout"));
+										.with_key(key));
 									}
 								},
 								None => {
